@@ -201,6 +201,17 @@ def _run_history(root, L, rng, namer, opts, meta, cli=False):
     owned = set(owned0)
     for m in s1['mfs']:
         owned.add(_unname(namer, m['p']))
+    # logical directories that are the updated directory (or lie inside it) under another name -
+    # reached through a symlinked directory: what is written there is written inside `sub`
+    aliases = []
+    if sub:
+        rsub = os.path.realpath(os.path.join(root, sub))
+        for n in s0['nodes'] + s1['nodes']:
+            if n['k'] == 'dir' and n['p'] not in aliases:
+                rp = os.path.realpath(os.path.join(root, _unname(namer, n['p'])))
+                if (rp == rsub or rp.startswith(rsub + os.sep)) and n['p'] != namer.path(sub):
+                    aliases.append(n['p'])
+    ev['aliases'] = aliases
     changed = diff_snap(snap0, snap2)
     nonmf = [p for p in changed if not is_manifest_name(p, owned)]
     written = [p for p in changed if is_manifest_name(p, owned) and p in snap2]
@@ -461,7 +472,7 @@ def transparent_group(args):
             L.write(dst)
             mr = random.Random(muts_seed)
             for _ in range(mr.choice([0, 1, 1, 2])):
-                gen.mutate(mr, L0, dst, kind=mr.choice(['delete', 'alter_same', 'alter_size', 'stray', 'touch']))
+                gen.mutate(mr, L0, dst, kind=mr.choice(['delete', 'alter_same', 'alter_size', 'stray', 'touch']), manifest_names=False)
             top = os.path.join(dst, 'Manifest')
             res = []
             obs, ld = gem.call(gem.loader, top)
